@@ -17,8 +17,8 @@ structure RunOut where
   hadRuntimeError : Bool := false
   inputRest : List Char := []
   nativeCalls : Nat := 0
-  /-- `some "fuel"` / `some "panic"`: the model ran out of fuel / reached a partial host operation -/
-  abnormal : Option String := none
+  /-- the model ran out of fuel / reached a partial host operation / met a cyclic value to print -/
+  abnormal : Option Abn := none
   deriving Repr, Inhabited
 
 def renderDiag : Diag → List Char
@@ -35,18 +35,17 @@ structure Front where
   tokens : List Token := []
   prog : Option (List Stmt) := none
   diags : List Diag := []
-  abnormal : Option String := none
+  abnormal : Option Abn := none
   deriving Repr, Inhabited
 
 def frontEnd (lm : Char → Bool) (src : List Char) : Front :=
   match Lexer.scan lm src with
-  | none => { abnormal := some "panic" }
+  | none => { abnormal := some .panic }
   | some (toks, ld) =>
     match Parser.parse toks with
     | .ok p _ pd => { tokens := toks, prog := some p, diags := ld ++ pd }
     | .err pd => { tokens := toks, diags := ld ++ pd }
-    | .fuel => { tokens := toks, diags := ld, abnormal := some "fuel" }
-    | .panic => { tokens := toks, diags := ld, abnormal := some "panic" }
+    | .abn a => { tokens := toks, diags := ld, abnormal := some a }
 
 /-- `run(source, isRepl)` with a fresh pair of flags -/
 def run (P : Platform) (fuel : Nat) (src : List Char) (repl : Bool) (input : List Char) : RunOut :=
@@ -58,14 +57,13 @@ def run (P : Platform) (fuel : Nat) (src : List Char) (repl : Bool) (input : Lis
       { staticDiags := fe.diags, hadError := true, inputRest := input }
     else
       match fe.prog with
-      | none => { inputRest := input, abnormal := some "panic" }
+      | none => { inputRest := input, abnormal := some .panic }
       | some prog =>
         match interpret P fuel prog repl input with
         | .ok _ σ =>
           { out := σ.out, runtimeDiags := σ.diags, hadRuntimeError := σ.hadError,
             inputRest := σ.input, nativeCalls := σ.nativeCalls }
-        | .fuel => { inputRest := input, abnormal := some "fuel" }
-        | .panic => { inputRest := input, abnormal := some "panic" }
+        | .abn a => { inputRest := input, abnormal := some a }
 
 /-- exit status of `runFile` after `run` -/
 def fileStatus (r : RunOut) : Nat :=
